@@ -6,7 +6,7 @@ import numpy as np
 import scipy.stats
 from menelaus.partitioners.KDQTreePartitioner import KDQTreePartitioner
 from . import coqgen as G
-from .common import feq
+from .common import rebound, feq
 
 ID = "C08"
 PROPS = ["Prop_C08"]
@@ -83,11 +83,8 @@ def record_entropy(log):
         except Exception:
             log.append(None)
         return r
-    scipy.stats.entropy = wrapped
-    try:
+    with rebound(scipy.stats, "entropy", wrapped):
         yield
-    finally:
-        scipy.stats.entropy = orig
 
 
 def arr(rows, m):
